@@ -166,9 +166,12 @@ func (w *walker) walk(v reflect.Value, path string) {
 			fmt.Fprintf(&w.b, "^%d", id)
 			return
 		}
+		// only ancestors are remembered (cycle detection): a pointer met twice in sibling positions is rendered twice,
+		// so the rendering does not depend on map iteration order
 		w.visited[p] = len(w.visited)
 		w.b.WriteString("&")
 		w.walk(v.Elem(), path)
+		delete(w.visited, p)
 	case reflect.Interface:
 		if v.IsNil() {
 			w.b.WriteString("nil")
